@@ -1264,10 +1264,6 @@ func sDiffStore(n *Nodis, conn *redis.Conn, cmd redis.Command) {
 	execCommand(conn, func() {
 		dst := cmd.Args[0]
 		keys := cmd.Args[1:]
-		if n.Exists(keys...) != int64(len(keys)) {
-			conn.WriteInt64(0)
-			return
-		}
 		results := n.SDiffStore(dst, keys...)
 		conn.WriteInt64(results)
 	})
@@ -1295,10 +1291,6 @@ func sInterStore(n *Nodis, conn *redis.Conn, cmd redis.Command) {
 	execCommand(conn, func() {
 		dst := cmd.Args[0]
 		keys := cmd.Args[1:]
-		if n.Exists(keys...) != int64(len(keys)) {
-			conn.WriteInt64(0)
-			return
-		}
 		results := n.SInterStore(dst, keys...)
 		conn.WriteInt64(results)
 	})
@@ -1326,10 +1318,6 @@ func sUnionStore(n *Nodis, conn *redis.Conn, cmd redis.Command) {
 	execCommand(conn, func() {
 		dst := cmd.Args[0]
 		keys := cmd.Args[1:]
-		if n.Exists(keys...) == 0 {
-			conn.WriteInt64(0)
-			return
-		}
 		results := n.SUnionStore(dst, keys...)
 		conn.WriteInt64(results)
 	})
